@@ -6,7 +6,7 @@ usage: tools/seed.py <ID> <name> <demo-crate: saphyr|saphyr-parser> "<what it ne
 import json, os, shutil, subprocess, sys, tempfile, re
 
 pid, name, crate, needs = sys.argv[1:5]
-src = "/tmp/seed/%s/out" % pid
+src = os.environ.get("SEED_SRC", "/tmp/seed") + "/%s/out" % pid
 dst = "/verif/seeded/%s" % name
 os.makedirs(dst, exist_ok=True)
 for f in os.listdir(src):
